@@ -91,13 +91,25 @@ def jobs_sig(cases, quick):
     return out
 
 
+def text_safe(name):
+    return all(lab and all(48 <= c <= 57 or 65 <= c <= 90 or 97 <= c <= 122 for c in lab) for lab in name)
+
+
 def jobs_key(cases, rng):
+    """DS cases are multiplied by the ARGUMENT FORM of the owner (environment choice; the oracle only sees the
+    absolute owner): absolute Name (always); for owners made of letters / digits and short keys also absolute text,
+    relative text + origin ('@', one, two, ... labels; origin = the rest, down to the root) and relative Name + origin"""
     out = []
     for i, x in enumerate(cases):
         j = dict(x)
         if x["k"] == "nsec3":
             j["mode"] = ["bytes", "hex", "none"][i % 3]
         out.append(j)
+        if x["k"] == "ds" and len(x["key"]) <= 8 and text_safe(x["owner"]):
+            out.append(dict(x, form="text"))
+            for cut in range(len(x["owner"]) + 1):
+                out.append(dict(x, form="reltext", cut=cut))
+                out.append(dict(x, form="relname", cut=cut))
     return out
 
 
@@ -294,7 +306,12 @@ def jobs_random(templates, rng, count):
             if rng.random() < 0.5:
                 key = carry_key(rng, key)
             out.append({"k": "keytag", "rd": key})
-            out.append({"k": "ds", "owner": rnd_name(rng), "key": key, "dt": rng.choice([1, 2, 4])})
+            dsj = {"k": "ds", "owner": rnd_name(rng), "key": key, "dt": rng.choice([1, 2, 4])}
+            if rng.random() < 0.5:   # a letters-and-digits owner in a random argument form
+                dsj["owner"] = [[rng.choice(b"abzABZ019") for _ in range(rng.randint(1, 5))] for _ in range(rng.randint(0, 4))]
+                dsj["form"] = rng.choice(["text", "reltext", "reltext", "relname"])
+                dsj["cut"] = rng.randint(0, len(dsj["owner"]))
+            out.append(dsj)
         else:
             out.append({"k": "nsec3", "n": rnd_name(rng), "salt": [rng.randrange(256) for _ in range(rng.choice([0, 1, 4, 8, 255]))],
                         "iter": rng.choice([0, 1, 2, 5, 17, 50]), "mode": rng.choice(["bytes", "hex"])})
@@ -424,6 +441,8 @@ def classify(tr, line, clause):
         return "%s:nsec:rel=%s:%s:%s" % (clause, e.get("rel"), e.get("mode"), exc)
     if op in ("canon", "sig"):
         return "%s:%s:type=%s:class=%s:%s:%s" % (clause, op, e.get("t"), e.get("c"), e.get("mode"), exc)
+    if op == "ds":
+        return "%s:ds:owner-as-%s:dt=%s" % (clause, e.get("form"), e.get("dt"))
     if op == "zmut":
         return "%s:zmut:%s" % (clause, e.get("verdict"))
     return "%s:%s:%s" % (clause, op, exc)
